@@ -88,7 +88,7 @@ def main():
                 if os.path.exists(meta):
                     try: m = json.load(open(meta))
                     except Exception: m = {'raw': open(meta).read()}
-                m_out = {'property': pid, 'breaks': m.get('summary', ''), 'needs': m.get('needs', ''), 'files': m.get('files', []), 'demo_test': m.get('demo_test', ''),
+                m_out = {'property': pid, 'breaks': m.get('summary', m.get('breaks', '')), 'needs': m.get('needs', ''), 'files': m.get('files', []), 'demo_test': m.get('demo_test', ''),
                          'origin': 'independent sub-agent given only the property text and a scratch worktree' + (' (hard round: asked to evade randomized testers and small-scope explorers)' if os.environ.get('SEEDED_TAG') == 'hard' else ''),
                          'confirmed': {'repo_head': sh('git -C /repo rev-parse --short HEAD').stdout.strip(), 'demo_alone (passed, failed)': a[:2], 'patch_alone (passed, failed)': b[:2], 'patch_plus_demo (passed, failed)': c[:2],
                                        'how': 'scratch worktree outside /repo and /verif: git apply + cargo test --offline for each of the three combinations'},
